@@ -788,8 +788,40 @@ def fam_module_macro_name(rng, i, root, force=None):
     return modularize(c, root, "z%d" % i)
 
 
+def fam_forwarded_binder(rng, i, force=None):
+    """Macro A's template hands a binder (a whole binding list, a parameter list, a name) to macro B through a
+    PLAIN pattern variable, B puts it into a recognised binding form (let, lambda, named let), and A's template refers
+    to the binder: the references must follow the binder through the renaming passes, at top level, inside a function
+    body, and when the user has a global of the same spelling."""
+    pool = [p_ for p_ in POOL if p_ not in ("x", "v")]          # x: pattern variable, v: parameter of the use site
+    s = rng.choice(pool)
+    o = rng.choice([p_ for p_ in pool if p_ != s])
+    a, b = "hf%d" % i, "hf%dfw" % i
+    kind = rng.choice(["let", "lambda", "name", "named-let", "two-bindings"])
+    if kind == "let":
+        fw, tmpl = "[(_ bindings body) (let bindings body)]", "(%s ((%s x)) (+ %s %s))" % (b, s, s, s)
+    elif kind == "lambda":
+        fw, tmpl = "[(_ params body arg) ((lambda params body) arg)]", "(%s (%s) (+ %s %s) x)" % (b, s, s, s)
+    elif kind == "name":
+        fw, tmpl = "[(_ name val body) (let ((name val)) body)]", "(%s %s x (+ %s %s))" % (b, s, s, s)
+    elif kind == "named-let":
+        fw, tmpl = "[(_ bindings body) (let hfloop bindings body)]", "(%s ((%s x)) (+ %s %s))" % (b, s, s, s)
+    else:
+        fw, tmpl = "[(_ bindings body) (let bindings body)]", "(%s ((%s x) (%s 1)) (+ %s %s %s -1))" % (b, s, o, s, s, o)
+    defs = ["(define-syntax %s (syntax-rules () %s))" % (b, fw),
+            "(define-syntax %s (syntax-rules () [(_ x) %s]))" % (a, tmpl)]
+    ctx = "user-global" if force is True else ("plain" if force is False else rng.choice(["plain", "function", "user-global", "user-global-function"]))
+    pre = ["(define %s 1000) (define %s 500)" % (s, o)] if ctx.startswith("user-global") else []
+    if ctx in ("function", "user-global-function", "user-global"):
+        use = ["(define (hf%duse v) (%s v))" % (i, a), "(hf%duse 21)" % i]
+    else:
+        use = ["(%s 21)" % a]
+    return {"family": "forwarded_binder", "form": kind, "how": ctx, "units": pre + defs + use, "expected": "I42",
+            "ndefs": len(pre) + 2, "collision": None, "coq": None}
+
+
 FAMILIES = [fam_nested, fam_patvar, fam_shadow, fam_binder_form, fam_recursive, fam_macro_defining, fam_literal,
-            fam_scope_insensitive]
+            fam_scope_insensitive, fam_forwarded_binder]
 
 
 def hyg_model_exprs(c):
